@@ -42,15 +42,15 @@ type algoCfg struct {
 }
 
 type algoSUT struct {
-	cfg   algoCfg
-	outer core.Limit // what the application talks to (maybe a wrapper)
-	inner core.Limit
-	reg   *RecordingRegistry
-	vegas *limit.VegasLimit
-	grad  *limit.GradientLimit
-	grad2 *limit.Gradient2Limit
-	notes map[int][]int // listener id -> values delivered during the current operation
-	nl    int
+	cfg       algoCfg
+	outer     core.Limit // what the application talks to (maybe a wrapper)
+	inner     core.Limit
+	reg       *RecordingRegistry
+	vegas     *limit.VegasLimit
+	grad      *limit.GradientLimit
+	grad2     *limit.Gradient2Limit
+	notes     map[int][]int // listener id -> values delivered during the current operation
+	nl        int
 	smoothing float64
 }
 
@@ -77,7 +77,7 @@ func newAlgoSUT(r *rng, algo, wrap string) *algoSUT {
 		c.Ceil = []int{20, 120, 300, 1000}[r.intn(4)]
 		s.smoothing = smooths[r.intn(4)]
 		mult := []int{4, 10, 30}[r.intn(3)] // C07 and C15 are jointly satisfiable only if probing leaves room for an update between probes (multiplier >= 4)
-		c.ProbeMax = -1 // bound = multiplier x largest estimate seen, computed by the contract
+		c.ProbeMax = -1                     // bound = multiplier x largest estimate seen, computed by the contract
 		c.Inc = mult
 		v := limit.NewVegasLimitWithRegistry(c.Name, c.Initial, nil, c.Ceil, s.smoothing, nil, nil, nil, nil, nil, mult, nil, s.reg)
 		s.vegas, s.inner = v, v
@@ -409,15 +409,38 @@ func TestLimitRandom(t *testing.T) {
 					emit("dwell", hr, est+1, false)
 				}
 			}
+			// a second drop run, this time from the top of the range ("from any reachable state"): baseline probes fire in
+			// the middle of it while the estimate is still large
+			if cfg.Algo != "gradient2" && !dead {
+				b, set := s.baseline()
+				rtt := int64(5000)
+				if set && b > rtt {
+					rtt = b
+				}
+				start := est
+				bound := dropBound(cfg, s.smoothing, start)
+				cnt := 0
+				if s.grad != nil && cfg.ProbeMax > 0 {
+					// the library draws the probe countdown from an unseeded source: place a probe early in this run
+					s.grad.VerifSetResetCounter(r.between(2, 4))
+				}
+				for cnt < bound && est > cfg.Floor && !dead {
+					emit("droprun", rtt, est, true)
+					cnt++
+				}
+				i++
+				w.write(J{"ev": "RunEnd", "trace": k, "i": i, "mode": "droprun", "est": est, "n": cnt, "bound": bound, "from": start})
+			}
 		}
 	}
 }
 
 // dropBound: number of consecutive drop samples within which the estimate must have reached the floor.
-//   AIMD:     every drop lowers the limit by at least 1                     -> est
-//   Vegas:    every non-probe drop lowers the estimate by smoothing*log10root(est) >= smoothing; probes
-//             (which do not update) recur at most every other sample at small estimates -> 2*est/smoothing + 20
-//   Gradient: est' = est*(1 - smoothing/2) until the floor                  -> log(est/floor)/-log(1-s/2), doubled, + probes
+//
+//	AIMD:     every drop lowers the limit by at least 1                     -> est
+//	Vegas:    every non-probe drop lowers the estimate by smoothing*log10root(est) >= smoothing; probes
+//	          (which do not update) recur at most every other sample at small estimates -> 2*est/smoothing + 20
+//	Gradient: est' = est*(1 - smoothing/2) until the floor                  -> log(est/floor)/-log(1-s/2), doubled, + probes
 func dropBound(c algoCfg, smoothing float64, est int) int {
 	switch c.Algo {
 	case "aimd":
@@ -433,9 +456,10 @@ func dropBound(c algoCfg, smoothing float64, est int) int {
 }
 
 // growBound: number of healthy saturated samples within which the estimate must be within one of the ceiling.
-//   AIMD: +inc per sample (20 samples are checked exactly);  Vegas: >= smoothing*6 per non-probe sample;
-//   Gradient: >= queue allowance per non-probe sample; Gradient2: >= smoothing*queue per sample once the long
-//   average has converged to the constant RTT (within ~20 x long window samples)
+//
+//	AIMD: +inc per sample (20 samples are checked exactly);  Vegas: >= smoothing*6 per non-probe sample;
+//	Gradient: >= queue allowance per non-probe sample; Gradient2: >= smoothing*queue per sample once the long
+//	average has converged to the constant RTT (within ~20 x long window samples)
 func growBound(c algoCfg, smoothing float64, est int) int {
 	switch c.Algo {
 	case "aimd":
@@ -484,6 +508,7 @@ func TestLimitTwin(t *testing.T) {
 		base := int64(1000)
 		clockT := int64(1e9)
 		hl := r.between(5, 80)
+		var endLast, endMoved, endMax int64 // completion time of the latest sample / of the latest one that moved the estimate
 		for i := 0; i < hl; i++ {
 			if b, set := ref.baseline(); set {
 				base = b
@@ -499,6 +524,13 @@ func TestLimitTwin(t *testing.T) {
 			}
 			hist = append(hist, x)
 			ref.outer.OnSample(x.start, x.rtt, x.inflight, x.drop)
+			endLast = x.start + x.rtt
+			if endLast > endMax {
+				endMax = endLast
+			}
+			if e2 := ref.outer.EstimatedLimit(); e2 != est {
+				endMoved = endLast
+			}
 			est = ref.outer.EstimatedLimit()
 			if ref.vegas != nil {
 				_, j := ref.vegas.VerifProbe()
@@ -540,29 +572,44 @@ func TestLimitTwin(t *testing.T) {
 		cands := []int64{b, b + 1, b + b/8, b + b/4, b + b/2, 2 * b, 3 * b, 4 * b, 8 * b, 20 * b}
 		w.write(J{"ev": "Reset", "trace": k, "cfg": ref.cfg, "obs": J{"est": ref.cfg.Initial, "listeners": 0}})
 		last := smp{0, []int{est, est / 2, est + 5, 0}[r.intn(4)], r.chance(1, 6), 0}
+		starts := []int64{0}
 		if k%2 == 1 {
-			// the final sample started around the time of the latest completions (possibly before the last one ended)
-			last.start = clockT + b*int64(r.between(-12, 3))
-			if last.start < 1 {
-				last.start = 1
+			// the final sample started around the time of the latest completions (possibly before the last one ended) ...
+			starts = []int64{clockT + b*int64(r.between(-12, 3))}
+			// ... and such that, of the RTTs compared, some make it complete just before an earlier completion (the latest,
+			// the latest that moved the estimate, the furthest one, one of the last few) and some after
+			anchors := []int64{endLast, endMoved, endMax}
+			for i := len(hist) - 1; i >= 0 && i >= len(hist)-4; i-- {
+				anchors = append(anchors, hist[i].start+hist[i].rtt)
+			}
+			for i := 0; i < 4; i++ {
+				if a := anchors[r.intn(len(anchors))]; a > 0 {
+					starts = append(starts, a-cands[r.intn(5)]-1)
+				}
 			}
 		}
-		for a := 0; a < len(cands); a++ {
-			for c := a + 1; c < len(cands); c++ {
-				lo, hi := cands[a], cands[c]
-				if lo >= hi {
-					continue
+		for _, st := range starts {
+			if st < 1 && k%2 == 1 {
+				st = 1
+			}
+			last.start = st
+			for a := 0; a < len(cands); a++ {
+				for c := a + 1; c < len(cands); c++ {
+					lo, hi := cands[a], cands[c]
+					if lo >= hi {
+						continue
+					}
+					s1, s2 := prepare(), prepare()
+					if s1.outer.EstimatedLimit() != est || s2.outer.EstimatedLimit() != est {
+						w.write(J{"ev": "Twin", "trace": k, "i": 0, "algo": algo, "lo": chunks(lo), "hi": chunks(hi), "estlo": -1, "esthi": -2, "skip": false, "why": "twins diverged from the reference run"})
+						continue
+					}
+					o1 := s1.sample(last.start, lo, last.inflight, last.drop)
+					o2 := s2.sample(last.start, hi, last.inflight, last.drop)
+					skip := o1["probe"].(bool) || o2["probe"].(bool)
+					w.write(J{"ev": "Twin", "trace": k, "i": 0, "algo": algo, "lo": chunks(lo), "hi": chunks(hi), "inflight": last.inflight, "drop": last.drop,
+						"estlo": o1["est"], "esthi": o2["est"], "skip": skip, "why": "", "before": est, "start": last.start})
 				}
-				s1, s2 := prepare(), prepare()
-				if s1.outer.EstimatedLimit() != est || s2.outer.EstimatedLimit() != est {
-					w.write(J{"ev": "Twin", "trace": k, "i": 0, "algo": algo, "lo": chunks(lo), "hi": chunks(hi), "estlo": -1, "esthi": -2, "skip": false, "why": "twins diverged from the reference run"})
-					continue
-				}
-				o1 := s1.sample(last.start, lo, last.inflight, last.drop)
-				o2 := s2.sample(last.start, hi, last.inflight, last.drop)
-				skip := o1["probe"].(bool) || o2["probe"].(bool)
-				w.write(J{"ev": "Twin", "trace": k, "i": 0, "algo": algo, "lo": chunks(lo), "hi": chunks(hi), "inflight": last.inflight, "drop": last.drop,
-					"estlo": o1["est"], "esthi": o2["est"], "skip": skip, "why": "", "before": est})
 			}
 		}
 	}
